@@ -20,7 +20,7 @@ def run(ctx, out):
                 f.roles = 'explicit'
             if f.name.startswith('two steps'):
                 f.roles = 'ordval'
-    S.run_check(ctx, out, 'C19', fams + S.pool_families(ctx.tier)[:1], {'C19'}, outcomes=('Success', 'Failure'))
+    S.run_check(ctx, out, 'C19', fams + S.pool_families(ctx.tier)[:1] + S.fault_families(ctx.tier), {'C19'}, outcomes=('Success', 'Failure'))
     R.run_run(ctx, out, 'C19', {'C19'})
     ks = run_k(ctx, out, ['work::verif_kani::statecounts_step'], timeout=600, jobs=1)
     out.coverage.update({
